@@ -67,7 +67,7 @@ func Import(fs afero.Fs) {
 
 	// NOTE(skipor): json provider SHOULD NOT used normally. Register your own, that will return
 	// type that you need, but untyped map.
-	RegisterCustomJSONProvider("json", func() core.Ammo { return map[string]interface{}{} })
+	RegisterCustomJSONProvider("json", func() core.Ammo { return &map[string]interface{}{} })
 
 	register.Provider("dummy", func() core.Provider {
 		return provider.Dummy{}
